@@ -18,6 +18,9 @@ def prose(r, lo=1, hi=6, punct=True, rich=True):
     ws = [r.choice(WORDS) for _ in range(r.randint(lo, hi))]
     if rich and r.random() < 0.12:
         ws.insert(r.randint(0, len(ws)), r.choice(["default", "by default", "the default mode", "Default"]))
+    if rich and r.random() < 0.1:
+        # commas that are not followed by exactly one blank
+        ws.insert(r.randint(0, len(ws)), r.choice(["10,000", "(x,y)", "0,5", "a,  b"]))
     s = " ".join(ws)
     if punct:
         k = r.random()
